@@ -8,6 +8,7 @@ import (
 	"strings"
 
 	"verif/internal/core"
+	"verif/internal/flow"
 )
 
 // R-C11-10: a hot-reloadable option never forces a restart of the listener.
@@ -25,14 +26,65 @@ import (
 //     every update of a server that sets the field, i.e. every rule update restarts;
 //   - Rules is among the blanked fields (the property's "updating the rules").
 func c11Restart(c *core.Ctx) {
-	f := fn(c, hs, "runtime", "needRestartServer")
 	specT := namedType(c, hs, "Spec")
 	rulesF := structField(c, hs, "Spec", "Rules")
-	if f == nil || specT == nil || rulesF == nil {
+	if specT == nil || rulesF == nil {
 		return
 	}
+	// role: the bool function of the package that takes a *Spec and compares two Spec values
+	// (the unexported name needRestartServer is only a tie-breaker)
+	cands := funcsByRole(c, hs, func(g *flow.Func, fd *ast.FuncDecl) bool {
+		if fd.Type.Results == nil || len(fd.Type.Results.List) != 1 {
+			return false
+		}
+		if tv, ok := g.Info.Types[fd.Type.Results.List[0].Type]; !ok || !types.Identical(tv.Type, types.Typ[types.Bool]) {
+			return false
+		}
+		hasSpec := false
+		for _, fl := range fd.Type.Params.List {
+			if tv, ok := g.Info.Types[fl.Type]; ok && types.Identical(tv.Type, types.NewPointer(specT)) {
+				hasSpec = true
+			}
+		}
+		if !hasSpec {
+			return false
+		}
+		found := false
+		ast.Inspect(fd.Body, func(n ast.Node) bool {
+			switch x := n.(type) {
+			case *ast.CallExpr:
+				if calleeFull(g, x) == "reflect.DeepEqual" && len(x.Args) == 2 {
+					if tv, ok := g.Info.Types[x.Args[0]]; ok && tv.Type != nil && (types.Identical(tv.Type, specT) || types.Identical(tv.Type, types.NewPointer(specT))) {
+						found = true
+					}
+				}
+			case *ast.BinaryExpr:
+				if x.Op == token.EQL || x.Op == token.NEQ {
+					if tv, ok := g.Info.Types[x.X]; ok && tv.Type != nil && types.Identical(tv.Type, specT) {
+						found = true
+					}
+				}
+			}
+			return true
+		})
+		return found
+	})
+	if len(cands) > 1 {
+		for _, g := range cands {
+			if g.Node.(*ast.FuncDecl).Name.Name == "needRestartServer" {
+				cands = []*flow.Func{g}
+			}
+		}
+	}
+	if len(cands) != 1 {
+		c.Undecide("R-C11-10", hs+"|restart decision", c.Prog.Rel(specT.Obj().Pos()),
+			sprintf("expected one bool function taking a *Spec that compares two Spec values (the restart decision), found %d", len(cands)))
+		return
+	}
+	f := cands[0]
+	c.Count("functions_analysed", 1)
 	fd := f.Node.(*ast.FuncDecl)
-	name := fname(hs, "runtime", "needRestartServer")
+	name := declName(f.Pkg, fd)
 	info := f.Info
 
 	// the comparison: reflect.DeepEqual(a, b) or a == b / a != b on two Spec values
